@@ -41,6 +41,60 @@ def workroot():
     return d
 
 
+# --------------------------------------------------------------------------
+# the ambient conditions of the executor processes are part of the workload: nothing a property promises depends on the
+# process environment, the current directory, the home directory's git configuration or a CI system's variables - so the
+# executors run in an ambient in which every one of these differs from "a developer's quiet shell"
+
+_AMBIENT = {}
+
+
+def ambient_dir():
+    """a directory (created once per check process, next to the work directories) that serves as HOME, as a stale $PWD and as the
+    target of stale CNB_* path variables: its git ignore files ignore everything, its decoy inputs are valid and different"""
+    d = _AMBIENT.get("dir") or os.environ.get("VP_AMBIENT_DIR")
+    if d and os.path.isdir(d):
+        return d
+    # (./check creates it inside its work directory before any worker is forked and exports VP_AMBIENT_DIR; the work directory is removed at the end)
+    d = os.path.join(workroot(), "ambient")
+    for sub in (".config/git", "decoy/layers", "decoy/platform/env", "decoy/app", "elsewhere"):
+        os.makedirs(os.path.join(d, sub), exist_ok=True)
+    for rel, text in ((".gitignore", "*\n"), (".config/git/ignore", "*\n"), (".gitconfig", "[core]\n\texcludesFile = %s/.gitignore\n" % d),
+                      ("decoy/plan.toml", '[[entries]]\nname = "decoy-from-a-stale-variable"\n'), ("decoy/build-plan.toml", ""),
+                      ("decoy/platform/env/DECOY", "from a stale CNB_PLATFORM_DIR"), ("decoy/layers/store.toml", '[metadata]\ndecoy = true\n')):
+        with open(os.path.join(d, rel), "w") as f:
+            f.write(text)
+    os.chmod(d, 0o755)
+    # every work directory has an ancestor whose .gitignore ignores everything (none of them is inside a git repository: the file means nothing)
+    with open(os.path.join(os.path.dirname(d), ".gitignore"), "w") as f:
+        f.write("*\n")
+    _AMBIENT["dir"] = d
+    os.environ["VP_AMBIENT_DIR"] = d
+    return d
+
+
+def hostile_env(cargo=False):
+    """environment variables that are set around the code under test. cargo=True: the process runs real cargo (it keeps CARGO_HOME /
+    RUSTUP_HOME and gets no CARGO_TARGET_DIR)."""
+    d = ambient_dir()
+    e = {"CI": "true", "GITHUB_ACTIONS": "true", "HOME": d, "XDG_CONFIG_HOME": os.path.join(d, ".config"), "PWD": os.path.join(d, "elsewhere"), "OLDPWD": d,
+         "LANG": "tr_TR.UTF-8", "LC_ALL": "tr_TR.UTF-8", "TZ": "Pacific/Kiritimati", "NO_COLOR": "1", "TERM": "dumb", "SOURCE_DATE_EPOCH": "1", "COLUMNS": "20",
+         # stale path variables of an outer lifecycle run (the phases take their paths from their arguments)
+         "CNB_BP_PLAN_PATH": os.path.join(d, "decoy", "plan.toml"), "CNB_BUILD_PLAN_PATH": os.path.join(d, "decoy", "build-plan.toml"), "CNB_LAYERS_DIR": os.path.join(d, "decoy", "layers"),
+         "CNB_PLATFORM_DIR": os.path.join(d, "decoy", "platform"), "CNB_APP_DIR": os.path.join(d, "decoy", "app"),
+         # names the workloads themselves use for the variables they compute with: the process environment is not an input
+         "A": "from-the-process-environment", "B": "from-the-process-environment", "FOO": "from-the-process-environment", "CC": "from-the-process-environment",
+         "LD_LIBRARY_PATH_VP": "x", "CPATH": "/from/the/process/environment", "LIBRARY_PATH": "/from/the/process/environment", "PKG_CONFIG_PATH": "/from/the/process/environment"}
+    if cargo:
+        real_home = os.environ.get("HOME", "/root")
+        e["CARGO_HOME"] = os.environ.get("CARGO_HOME", os.path.join(real_home, ".cargo"))
+        e["RUSTUP_HOME"] = os.environ.get("RUSTUP_HOME", os.path.join(real_home, ".rustup"))
+    else:
+        e["CARGO_TARGET_DIR"] = "."
+        e["CARGO_BUILD_TARGET_DIR"] = "."
+    return e
+
+
 def rmtree(path):
     """rm -rf that copes with hostile modes (we run as root, but be thorough)."""
     if not os.path.lexists(path):
@@ -135,6 +189,8 @@ class Mon:
 
     def __init__(self, mode, env=None, binary="vpmon", preexec=None, cwd=None, prefix=(), umask=-1):
         e = dict(os.environ)
+        e.update(hostile_env())
+        e.pop("CARGO_PRIMARY_PACKAGE", None)
         if env:
             e.update(env)
         self.args = list(prefix) + [os.path.join(BIN, binary), mode]
